@@ -1182,6 +1182,7 @@ func checkC09(p *Prog, r *Report) {
 		return
 	}
 	ruleOutputValidated(p, m, r, "")
+	ruleConsoleTypestate(p, r, "R15.10", map[string]bool{"ios": true, "asa": true, "cisco": true, "linux": true}, 30)
 	ruleErrorEdges(p, m, r)
 	ruleSaveLast(p, m, r)
 	r.rule("R09.3", "Error discipline (E6) in the session packages: every call whose result contains an error has that result looked at (tested, returned, wrapped, passed on), or the call is listed with a reason in tables/err_exempt.tsv; the fmt print family is exempt as a class.")
